@@ -299,6 +299,7 @@ class Built:
         self.fns: dict[str, CountingFn] = {}
         self.dists: dict[str, CountingDist] = {}
         self.roots: list = []
+        self.groups: list = []
 
 
 def _resolve(b: Built, ref):
@@ -310,12 +311,12 @@ def _resolve(b: Built, ref):
     return o
 
 
-def make_dist(b: Built, name: str, D: dict) -> Dist:
+def make_dist(b: Built, name: str, D: dict, unnamed=False) -> Dist:
     cd = CountingDist(name, D["fam"])
     b.dists[name] = cd
     cls = TransientDist if D.get("transient") else Dist
     kwargs = {p: _resolve(b, r) for p, r in D["args"].items()}
-    d = cls(cd, _name=name, **kwargs)
+    d = cls(cd, _name="" if unnamed else name, **kwargs)
     d.per_obs = D.get("per_obs", True)
     return d
 
@@ -324,12 +325,13 @@ def construct(spec: list[dict], names=True) -> Built:
     b = Built()
     for i, it in enumerate(spec):
         k = it["k"]
+        un = bool(it.get("unnamed"))
         if k == "value":
-            n = Value(jnp.asarray(it["val"], jnp.float32), _name=it["name"] if names else "")
+            n = Value(jnp.asarray(it["val"], jnp.float32), _name="" if un else it["name"])
             b.obj[i] = b.node[i] = n
         elif k == "var":
-            dist = make_dist(b, f"{it['name']}_log_prob", it["dist"]) if it["dist"] else None
-            v = Var(jnp.asarray(it["val"], jnp.float32), dist, name=it["name"])
+            dist = make_dist(b, f"{it['name']}_log_prob", it["dist"], un) if it["dist"] else None
+            v = Var(jnp.asarray(it["val"], jnp.float32), dist, name="" if un else it["name"])
             if it.get("role") == "obs":
                 v.observed = True
             elif it.get("role") == "param":
@@ -341,15 +343,15 @@ def construct(spec: list[dict], names=True) -> Built:
             b.fns[it["name"]] = f
             cls = TransientCalc if it["mode"] == "transient" else Calc
             ins = [_resolve(b, r) for r in it["inputs"]]
-            c = cls(f, *ins, _name=it["name"], _needs_seed=bool(it.get("seeded")))
+            c = cls(f, *ins, _name="" if un else it["name"], _needs_seed=bool(it.get("seeded")))
             b.node[i] = c
             if it.get("wrap"):
-                v = Var(c, name=it["wrap"])
+                v = Var(c, name="" if un else it["wrap"])
                 b.obj[i] = v
             else:
                 b.obj[i] = c
         elif k == "ident":
-            n = TransientIdentity(_resolve(b, it["input"]), _name=it["name"])
+            n = TransientIdentity(_resolve(b, it["input"]), _name="" if un else it["name"])
             b.obj[i] = b.node[i] = n
         elif k == "igroup":
             n = InputGroup(*[_resolve(b, r) for r in it["inputs"]], _name=it["name"],
@@ -359,7 +361,28 @@ def construct(spec: list[dict], names=True) -> Built:
             d = make_dist(b, it["name"], it["dist"])
             d.at = b.node[it["at"]["i"]]
             b.obj[i] = b.node[i] = d
+        elif k == "group":
+            members = {key: b.obj[j] for key, j in it["members"].items()}
+            b.obj[i] = lsl.Group(it["name"], **members)
+            b.groups.append(b.obj[i])
     return b
+
+
+def read_back_names(spec, b: Built) -> list[dict]:
+    """Runtime copy of the spec in which unnamed items carry the names the builder gave them."""
+    rt = _copy.deepcopy(spec)
+    for i, it in enumerate(rt):
+        if not it.get("unnamed"):
+            continue
+        if it["k"] == "var":
+            it["name"] = b.obj[i].name
+        elif it["k"] == "calc":
+            it["name"] = b.node[i].name
+            if it.get("wrap"):
+                it["wrap"] = b.obj[i].name
+        else:
+            it["name"] = b.node[i].name
+    return rt
 
 
 def reset_counters(b: Built):
@@ -373,7 +396,8 @@ def build_model(spec, copy=False):
     b = construct(spec)
     gb = lsl.GraphBuilder()
     for i, it in enumerate(spec):
-        gb.add(b.obj[i])
+        if it["k"] != "group":
+            gb.add(b.obj[i])
     model = gb.build_model(copy=copy)
     return b, model
 
